@@ -27,6 +27,12 @@ for f in sorted(glob.glob('/repo/**/*_verif.go', recursive=True)):
             continue
         if key not in listed:
             missing.append(key + '  (' + f + ')')
+        # the header's props(...): each named property has to list the function
+        hm = re.search(r'props\(([^)]*)\)', l)
+        if hm:
+            for t in [x.strip() for x in hm.group(1).split(',') if x.strip()]:
+                if key not in listed_by.get(t, set()):
+                    untagged.append(f'{t}: {key} names {t} in its props() but is not in {t}\'s function list (its contract is never checked for {t})')
         # clause tags [Cxx,...] of this contract (up to the next contract or blank line)
         j = i + 1
         tags = set()
